@@ -6,6 +6,8 @@ from oracle import ddl
 ASSUMPTIONS = [
     'two tables (or one, self-reference) with one or two references; kind / composite / schemas fanned out by the driver; inline flag, '
     'naming and the update/delete actions symbolic; column and constraint names are K-character holes; composite width 2',
+    'the fixed columns of a table carry four-character names (idk_, yyy_, zed_) so that a hole of at most three characters cannot '
+    'repeat one of them: two columns of one name in a table are outside the property (a false alarm of the first thorough run: hole = \'idk\')',
     'for a many-to-many reference the CONSTRAINT name of the two generated foreign keys is not asserted (the property does not say)',
 ]
 
@@ -68,7 +70,7 @@ def one_ref(kind, composite, s1, s2, selfref, K, mode='names', upd_i=3, dele_i=4
         else:
             a['named'] = True
             xname, cname = 'x{', 'fk 1'
-        ta = Table('a', schema=s1, columns=[Column(xname, 'int'), Column('yyy', 'varchar(5)'), Column('idk', 'int', pk=True), Column('zed', 'text')])
+        ta = Table('a', schema=s1, columns=[Column(xname, 'int'), Column('yyy_', 'varchar(5)'), Column('idk_', 'int', pk=True), Column('zed_', 'text')])
         if selfref:
             tb = ta
             sb = s1
@@ -76,25 +78,25 @@ def one_ref(kind, composite, s1, s2, selfref, K, mode='names', upd_i=3, dele_i=4
         else:
             # samename: the two tables share the bare name and differ only by schema
             bname = 'a' if samename else 'b'
-            tb = Table(bname, schema=s2, columns=[Column('idk', 'int', pk=True), Column('zed', 'text')])
+            tb = Table(bname, schema=s2, columns=[Column('idk_', 'int', pk=True), Column('zed_', 'text')])
             sb = s2
         db = Database()
         db.add(ta)
         if not selfref:
             db.add(tb)
         left = [ta.columns[0], ta.columns[1]] if composite else [ta.columns[0]]
-        right = [tb['idk'], tb['zed']] if composite else [tb['idk']]
+        right = [tb['idk_'], tb['zed_']] if composite else [tb['idk_']]
         ref = Reference(kind, left, right, name=cname if a['named'] else None, on_update=ACTIONS[a['upd']],
                         on_delete=ACTIONS[a['dele']], inline=a['inline'])
         db.add(ref)
-        lcols = (xname, 'yyy') if composite else (xname,)
-        rcols = ('idk', 'zed') if composite else ('idk',)
+        lcols = (xname, 'yyy_') if composite else (xname,)
+        rcols = ('idk_', 'zed_') if composite else ('idk_',)
         qa, qb = _q(s1, 'a'), _q(sb, bname)
         upd = ACTIONS[a['upd']].upper() if ACTIONS[a['upd']] else None
         dele = ACTIONS[a['dele']].upper() if ACTIONS[a['dele']] else None
         cn = cname if a['named'] else None
-        a_cols = (_col(xname), _col('yyy', 'varchar(5)'), _col('idk', pk=True), _col('zed', 'text'))
-        b_cols = (_col('idk', pk=True), _col('zed', 'text'))
+        a_cols = (_col(xname), _col('yyy_', 'varchar(5)'), _col('idk_', pk=True), _col('zed_', 'text'))
+        b_cols = (_col('idk_', pk=True), _col('zed_', 'text'))
         a_fks, b_fks, extra = [], [], []
         mask = False
         if kind == '<>':
